@@ -12,6 +12,8 @@ from concurrent.futures import ThreadPoolExecutor
 
 HERE = os.path.dirname(os.path.abspath(__file__))
 VERIF = os.path.dirname(HERE)
+# where evidence/ and replays/ are written: /verif unless a sensitivity run redirects them
+OUT = os.environ.get("VERIF_OUT", VERIF)
 sys.path.insert(0, HERE)
 import build as B  # noqa: E402
 import universes as UV  # noqa: E402
@@ -477,10 +479,10 @@ def known_args_for(prop, known):
 
 # ---------------------------------------------------------------------------- evidence
 def write_evidence(prop, tier, seed, level, coverage, wall_s, violations, assumptions):
-    os.makedirs(os.path.join(VERIF, "evidence"), exist_ok=True)
+    os.makedirs(os.path.join(OUT, "evidence"), exist_ok=True)
     ev = dict(property_id=prop, tier=tier, seed=seed, level=level, coverage=coverage,
               assumptions=assumptions, wall_s=round(wall_s, 2), violations=violations)
-    path = os.path.join(VERIF, "evidence", prop + ".json")
+    path = os.path.join(OUT, "evidence", prop + ".json")
     with open(path + ".tmp", "w") as f:
         json.dump(ev, f, indent=1, sort_keys=True)
     os.replace(path + ".tmp", path)
